@@ -1,6 +1,8 @@
 /-
   C05 — the facts about the source that the hand-written model (Model/C05.lean, C05Orient, C05Cli, C05Index)
-  relies on, as the extractor harness/c05/extract.go prints them (normal forms, see there).  The theorem
+  relies on, as the extractor harness/c05/extract.go prints them (normal forms, see there: a > b is lt(b,a),
+  the locals of a function are $1, $2, … in order of first occurrence among its comparisons, x/2.0 and x*0.5
+  are x*1/2).  The theorem
   `source_facts_check` (Proofs/C05.lean) decides that the tables regenerated from the working tree
   (Gotree/Gen/C05Source.lean) are these.  Which definition of the model rests on which row:
 
@@ -41,19 +43,19 @@ def reaches : List (String × List String) := [
 
 /-- function ↦ its comparisons (op, left, right), normalised, in source order -/
 def cmps : List (String × List (String × String × String)) := [
-  ("Reroot", [("lt", "n.Nneigh()", "2")]),
-  ("reroot_nocheck", [("lt", "n.Nneigh()", "2")]),
-  ("RerootFirst", [("eq", "len(n.neigh)", "3")]),
-  ("UnRoot", [("ne", "e1.Length()", "NIL_LENGTH"), ("ne", "e2.Length()", "NIL_LENGTH"), ("ne", "e1.Support()", "NIL_SUPPORT"), ("ne", "e2.Support()", "NIL_SUPPORT")]),
-  ("LeastCommonAncestorUnrooted", [("eq", "len(tipindex)", "0"), ("eq", "diff", "0")]),
-  ("LeastCommonAncestorRecur", [("lt", "0", "com")]),
-  ("RerootOutGroup", [("eq", "len(n.br)", "1"), ("ne", "len(n.br) - len(edges)", "1"), ("ne", "length", "NIL_LENGTH")]),
-  ("MaxLengthPath", [("eq", "e.Length()", "NIL_LENGTH"), ("lt", "curlength", "l + e.Length()")]),
-  ("RerootMidPoint", [("lt", "curlength", "length"), ("le", "0", "j"), ("lt", "float64(len)", "curlength / 2.0")]),
-  ("sortNeighbors", [("lt", "neighbors[i].ntips", "neighbors[j].ntips")]),
+  ("Reroot", [("lt", "$1.Nneigh()", "2")]),
+  ("reroot_nocheck", [("lt", "$1.Nneigh()", "2")]),
+  ("RerootFirst", [("eq", "len($1.neigh)", "3")]),
+  ("UnRoot", [("ne", "$1.Length()", "NIL_LENGTH"), ("ne", "$2.Length()", "NIL_LENGTH"), ("ne", "$1.Support()", "NIL_SUPPORT"), ("ne", "$2.Support()", "NIL_SUPPORT")]),
+  ("LeastCommonAncestorUnrooted", [("eq", "len($1)", "0"), ("eq", "$2", "0")]),
+  ("LeastCommonAncestorRecur", [("lt", "0", "$1")]),
+  ("RerootOutGroup", [("eq", "len($1.br)", "1"), ("ne", "len($1.br) - len($2)", "1"), ("ne", "$3", "NIL_LENGTH")]),
+  ("MaxLengthPath", [("eq", "$1.Length()", "NIL_LENGTH"), ("lt", "$2", "$3 + $1.Length()")]),
+  ("RerootMidPoint", [("lt", "$1", "$2"), ("le", "0", "$3"), ("lt", "float64($4)", "$1*1/2")]),
+  ("sortNeighbors", [("lt", "$1[$2].ntips", "$1[$3].ntips")]),
   ("RotateNeighbors", []),
   ("cmd:midpointCmd", []),
-  ("cmd:outgroupCmd", [("ne", "tipfile", "\"none\""), ("lt", "0", "len(args)")]),
+  ("cmd:outgroupCmd", [("ne", "tipfile", "\"none\""), ("lt", "0", "len($1)")]),
   ("cmd:rotateRandCmd", []),
   ("cmd:rotateSortCmd", []),
   ("cmd:unrootCmd", [])
